@@ -94,6 +94,9 @@ class Arith:
         self.strict = 0
 
     def fl(self, x):
+        if x == 0:
+            self.strict += 1
+            return 0          # 0 / anything is exactly 0 in floats as well
         n = round(x)
         if not self.exact and near(x, n):
             raise Discard("floor in band")
